@@ -247,6 +247,14 @@ func (h *connHandshaker) Start(p Pipe) {
 	// If the following type assertion fails, then its a software bug.
 	conn := p.(connHandshakerPipe)
 	h.Lock()
+	if h.closed {
+		// Close has already swept the work queue: a connection accepted
+		// at the same moment would never be closed, and its handshake
+		// would wait for the peer for ever.
+		h.Unlock()
+		_ = conn.Close()
+		return
+	}
 	h.workq[conn] = true
 	h.Unlock()
 	go h.worker(conn)
